@@ -45,6 +45,14 @@ PROPS = {
                         special(t, "helpers,builder,listvar", count=(6000, 100000))],
         corr=["corr.dec.class", "corr.builder", "corr.listvar", "corr.read_offset", "corr.split_union", "corr.const"],
         oracle=["oracle.C05", "abort"]),
+    "C06": dict(
+        runs=lambda t: [catalogue(t, "decalloc", values=(8, 40), nbytes=(80, 800), exhaustive=(0, 0))],
+        corr=["corr.alloc", "corr.dec.class", "corr.const"], oracle=["oracle.C06", "abort"],
+        rule="decode calls under a counting global allocator (peak live bytes, largest single request); inputs: valid encodings, "
+             "mutations, offset-table grammar and strings whose offset words announce counts in {len/4+1, 2^16..2^30, 2^32-4}; "
+             "non-trivial = inputs of at least 4 bytes",
+        assumptions=["heap bytes <= 8 x (largest nested element size) x (units + 1) + 4096: Vec growth policy, BTree node "
+                     "overhead and error-string allocations are std behaviour, measured not proved"]),
     "C07": dict(
         runs=lambda t: [catalogue(t, "meta,enc,dec", values=(12, 100), nbytes=(40, 400), exhaustive=(1, 1))],
         corr=["corr.meta", "corr.bytes_len", "corr.enc", "corr.has_ty", "corr.dec.class", "corr.const"],
